@@ -295,3 +295,52 @@ f <alpha> (a) => (b) {
 
 
 CASES["attr_ref"] = case_attr_ref
+
+
+def _override_case(nodes, x_shape, inits, override, out_shape, what):
+    """`inits`: {name: default array} registered as initializers AND graph inputs; `override`: values fed instead."""
+    import onnxscript.optimizer
+    et = {np.dtype("float32"): TensorProto.FLOAT, np.dtype("int64"): TensorProto.INT64}
+    ins = [vi("x", TensorProto.FLOAT, x_shape)] + [vi(n, et[a.dtype], list(a.shape)) for n, a in inits.items()]
+    g = helper.make_graph(nodes, "g", ins, [vi("y", TensorProto.FLOAT, out_shape)], [numpy_helper.from_array(a, n) for n, a in inits.items()])
+    m = helper.make_model(g, opset_imports=[helper.make_opsetid("", 18)], ir_version=9)
+    onnx.checker.check_model(m)
+    x = np.array([[-3.0, 0.5, 7.0], [1.0, 2.0, 3.0]], dtype=np.float32).reshape(x_shape)
+    feeds = {"x": x, **override}
+    before = run(m, feeds)[0]
+    o = onnxscript.optimizer.optimize(m)
+    try:
+        after = run(o, feeds)[0]
+    except Exception as e:  # noqa: BLE001
+        print(f"{what}: optimized model fails when the default is overridden: {str(e)[:120]}")
+        return 1
+    if before.shape != after.shape or not np.array_equal(before, after):
+        print(f"{what}: with the graph input overridden by {({k: v.tolist() for k, v in override.items()})} the original gives "
+              f"shape {before.shape} {before.tolist()}, the optimized model (nodes {[n.op_type for n in o.graph.node]}) gives shape {after.shape} {after.tolist()}")
+        return 1
+    return 0
+
+
+def case_ovr_expand():
+    return _override_case([helper.make_node("Expand", ["x", "s"], ["y"])], [1, 6], {"s": np.array([1, 6], dtype=np.int64)},
+                          {"s": np.array([4, 6], dtype=np.int64)}, ["p", "q"], "Expand(x[1,6], s), default s=[1,6]")
+
+
+def case_ovr_minmax():
+    bad = 0
+    lo, hi = np.array(0.0, dtype=np.float32), np.array(1.0, dtype=np.float32)
+    bad += _override_case([helper.make_node("Max", ["x", "lo"], ["t"]), helper.make_node("Min", ["t", "hi"], ["y"])], [2, 3],
+                          {"lo": lo, "hi": hi}, {"lo": np.array(-5.0, dtype=np.float32), "hi": np.array(5.0, dtype=np.float32)}, [2, 3],
+                          "Min(Max(x, lo), hi), defaults lo=0, hi=1")
+    bad += _override_case([helper.make_node("Min", ["x", "a"], ["t"]), helper.make_node("Min", ["t", "b"], ["y"])], [2, 3],
+                          {"a": hi, "b": hi}, {"a": np.array(5.0, dtype=np.float32), "b": np.array(6.0, dtype=np.float32)}, [2, 3],
+                          "Min(Min(x, a), b), defaults a=b=1")
+    return bad
+
+
+def case_ovr_addzero():
+    return _override_case([helper.make_node("Add", ["x", "z"], ["y"])], [2, 3], {"z": np.array(0.0, dtype=np.float32)},
+                          {"z": np.array(10.0, dtype=np.float32)}, [2, 3], "Add(x, z), default z=0")
+
+
+CASES.update({"ovr_expand": case_ovr_expand, "ovr_minmax": case_ovr_minmax, "ovr_addzero": case_ovr_addzero})
